@@ -51,6 +51,27 @@ def run(ctx, res):
     res.ob(L.ehdr is not None)
     if L.ehdr is None:
         res.errors.append("the ELF header value was not identified (parse_elf_header32 not called?)")
+    # pre-pass: the image-extent accumulator(s), by role - a loop-carried value of a program-header loop that an iteration can change
+    acc_names = set()
+    for o in outs:
+        if o.kind == "panic":
+            continue
+        effs0 = list(o.state.eff)
+        care0 = Mx.AND(o.state.pc, strmodel.exclusivity())
+        if care0 == 0:
+            continue
+        for idx, e in enumerate(effs0):
+            if e[0] == "iter-next" and isinstance(e[3], Agg) and len(e[3].fields) == len(fields_of(facts, PH)) and isinstance(e[3].fields[0], SymEnum):
+                rest = effs0[idx + 1:]
+                lb = [x for x in rest if x[0] == "loop-back"]
+                heads = [x for x in effs0[:idx] if x[0] == "loop-head"]
+                if not lb or not heads:
+                    continue
+                before, after = heads[-1][2], lb[0][2]
+                for nm in after:
+                    if nm in before and len(after[nm]) >= 32 and Mx.AND(care0, Mx.NOT(bv.eq(after[nm], before[nm]))) != 0:
+                        acc_names.add((heads[-1][1], nm))
+    res.inventory["image_extent_accumulators"] = sorted(str(x) for x in acc_names)
     for o in outs:
         st = o.state
         if o.kind == "panic":
@@ -156,7 +177,14 @@ def run(ctx, res):
                 # (generalised at its header) must make the ER7 formula hold
                 image_end = None
                 size_ = bv.zext(get(facts, SH, hdr, "addr").bits, 64)
+                # the accumulator identified by role (pre-pass), read at the head of its loop on this trace
+                named = [(x[1], nm, bits) for x in effs if x[0] == "loop-head" for nm, bits in x[2].items() if (x[1], nm) in acc_names and len(bits) >= 32]
+                if len(set((h_, nm_) for h_, nm_, _ in named)) == 1:
+                    image_end = bv.zext(named[-1][2], 64)
+                    image_end_var = named[-1][1]
                 for x in effs:
+                    if image_end is not None:
+                        break
                     if x[0] != "loop-head":
                         continue
                     for nm, bits in x[2].items():
